@@ -689,6 +689,7 @@ func runC01(c *engine.Ctx) {
 			if name := tm.apply(kind); name != "" {
 				tm.applied = append(tm.applied, name)
 				c.Fault(name, ji)
+				c.Tag("fault_kind_x_key_kind", name+" x "+kp.kind)
 			}
 		}
 		if len(tm.applied) == 0 {
